@@ -129,6 +129,7 @@ def run(tier):
     rule_R9(res, prog)
     rule_R10(res, prog)
     rule_R11(res, prog)
+    rule_R12(res, prog)
     return res.finish()
 
 
@@ -858,3 +859,64 @@ def rule_R11(res, prog):
             res.instance(rid, "%s:%s the verdict scan continues past certificate_expired (%d verdict stores stay reachable)" % (
                 fn.name, eln, len(inloop) - len(lost)), not (lost or not inloop), finding=f_)
     res.floor(rid, 4)
+
+
+def rule_R12(res, prog):
+    """'completes only if the peer was authenticated': with tls13UsingPsk set the TLS 1.3 server skips CertificateRequest /
+    Certificate / CertificateVerify, and with tls13ChosenPsk NULL the key schedule runs on the all-zero PSK that everybody
+    knows.  The two marks travel together: from every store tls13UsingPsk = true no path leaves the function (any return)
+    without tls13ChosenPsk having been given a value or tls13UsingPsk having been taken back - in particular not the exits on
+    which the candidate PSK is turned down."""
+    from sa import cfgutil as cu
+    rid = "C04.R12"
+    res.rule(rid, "TLS 1.3: `using a PSK` is never left set on an exit that has not also fixed which PSK (chosen PSK stored, or the mark withdrawn)")
+    n = 0
+    for fn in sorted(prog.functions.values(), key=lambda f: f.qname):
+        if not fn.blocks or not fn.relfile.startswith("matrixssl/") or "/test/" in fn.relfile:
+            continue
+        for b in fn.blocks:
+            for i, ln, x in cu.block_exprs(b):
+                for m in walk(x):
+                    if not (m.get("k") == "bin" and m["op"] == "=" and cu.ftext(strip(m["l"]) or {}) == "ssl->sec.tls13UsingPsk"):
+                        continue
+                    r = strip(m["r"])
+                    while r is not None and r.get("k") == "cast":
+                        r = strip(r["e"])
+                    if r is None or r.get("k") != "int" or r["v"] == 0:
+                        continue
+                    n += 1
+                    # the chosen PSK may have been fixed just before the mark, in the same straight-line region
+                    before = False
+                    for i2, l2, x2 in cu.block_exprs(b):
+                        if x2 is x:
+                            break
+                        if any(q.get("k") == "bin" and q["op"] == "=" and cu.ftext(strip(q["l"]) or {}) == "ssl->sec.tls13ChosenPsk" for q in walk(x2)):
+                            before = True
+
+                    def settles(y):
+                        for q in walk(y):
+                            if q.get("k") == "bin" and q["op"] == "=":
+                                lt = cu.ftext(strip(q["l"]) or {})
+                                if lt == "ssl->sec.tls13ChosenPsk":
+                                    return True
+                                if lt == "ssl->sec.tls13UsingPsk" and (strip(q["r"]) or {}).get("k") == "int" and strip(q["r"])["v"] == 0:
+                                    return True
+                        return False
+                    # .. or be known non-NULL here through a branch fact (clientPskOk() is `tls13ChosenPsk != NULL`, see R6)
+                    gf12 = cu.guard_facts(fn)
+                    if any((txt.startswith("clientPskOk(") and tr) or (txt == "ssl->sec.tls13ChosenPsk" and tr) or
+                           (txt == "(ssl->sec.tls13ChosenPsk != 0)" and tr) or (txt == "(ssl->sec.tls13ChosenPsk == 0)" and not tr)
+                           for (txt, tr) in gf12.get(b["id"], ())):
+                        before = True
+                    esc = None if before else cu.escapes(fn, (b["id"], i), settles)
+                    f_ = None
+                    if esc is not None:
+                        f_ = Finding(PROP, rid, fn.name, "`using a PSK` left set without a chosen PSK",
+                                     "%s:%s %s(): after ssl->sec.tls13UsingPsk = true the function can return at line %s (via lines %s) without having "
+                                     "stored tls13ChosenPsk or withdrawn the mark: a candidate PSK that is turned down (suite disabled / not compiled "
+                                     "in) leaves `using a PSK` set with no PSK chosen and no binder verified - the server skips certificate "
+                                     "authentication and runs the key schedule on the all-zero PSK, so a peer that merely names the public PSK "
+                                     "identity completes the handshake" % (fn.relfile, ln, fn.name, esc[-1][1], [p_[1] for p_ in esc[-6:]]),
+                                     file=fn.relfile, line=ln)
+                    res.instance(rid, "%s:%s tls13UsingPsk = true travels with a chosen PSK on every exit" % (fn.name, ln), esc is None, finding=f_)
+    res.floor(rid, 2)
